@@ -26,6 +26,25 @@ def pipeline(run):
     return summ, scen, obs
 
 
+def witness(run):
+    """wrapErrors effect witnesses: settings resolution observed on generated helper methods (executed code) and the fmt import."""
+    scen = os.path.join(run.scratch, "wscen.ndjson")
+    if run.replay:
+        scen = os.path.join(run.replay, "scen-witness.ndjson")
+        if not os.path.exists(scen):
+            return None
+    else:
+        out = run.tlc("Export_Witness", "INIT Init\nNEXT Next\nCONSTANTS\n  ScenOut = \"%s\"\nCHECK_DEADLOCK FALSE\n" % scen, workers=1, timeout=600, role="export")
+        if "exported" not in out:
+            raise Infra("export failed:\n" + out[-3000:])
+    obs = os.path.join(run.scratch, "wobs.ndjson")
+    run.harness(["witness", "-scen", scen, "-obs", obs, "-work", os.path.join(run.scratch, "ww")])
+    run.fam = "witness"
+    run.scen_files["witness"] = scen
+    run.validate_obs("Obs_Witness", obs)
+    return obs
+
+
 def replay_writer(scen):
     def w(d, ids):
         want = set(ids)
@@ -38,6 +57,7 @@ def replay_writer(scen):
 
 def check_C12(run):
     summ, scen, obs = pipeline(run)
+    wobs = witness(run)
     kinds = {}
     samples = []
     for r in read_ndjson(obs):
@@ -45,11 +65,17 @@ def check_C12(run):
         if k not in kinds and len(samples) < 5 and r["kind"] in ("P", "X", "V"):
             samples.append({k2: r[k2] for k2 in ("kind", "cli", "conv", "meth", "sib", "outcome", "names", "effMeth")})
         kinds[k] = kinds.get(k, 0) + 1
+    if wobs:
+        for r in read_ndjson(wobs):
+            kinds[("witness", r["pc"], r["p1"], r["p2"], tuple(r["chain1"]), tuple(r["chain2"]))] = 1
+            if len([s for s in samples if s.get("kind") == "witness"]) < 2 and r["p1"] != r["pc"]:
+                samples.append({"kind": "witness", "converter": r["pc"], "M1": r["p1"], "M2": r["p2"], "error_of_M1": r["msg1"], "imports": r["imports"]})
     run.samples = samples
     run.assumptions = ["effective settings of declared methods are read from the parsed config.Method (verif-only entry point); generated sub-methods take the converter's settings (covered by effect witnesses elsewhere)",
                        "lines whose acceptance depends on the program (extend, map, default, ...) are judged only when misplaced/unknown"]
     return run.finish("every placement of every inheritable boolean setting over {absent,bare,yes,no}^3 with a sibling method, every string setting over 3 values^3, double lines, the conflicting pair in both orders at all level pairs, "
-                      "and every (level, key, value text) of 38 keys x 16 value texts; distinct = distinct (kind, outcome, keys used)",
+                      "every (level incl. an update sibling, key, value text) of 38 keys x 25 value texts and pairs of a boolean setting with a map/ignore/autoMap/default line; "
+                      "27 wrapErrors effect witnesses (converter / M1 / M2 placements, shared generated helper) executed; distinct = distinct (kind, outcome, keys used)",
                       summ.get("scenarios", 0), len(kinds), replay_writer=replay_writer(scen))
 
 
